@@ -3,6 +3,7 @@ package gosym
 import (
 	"math"
 	"math/big"
+	"strconv"
 )
 
 type bigFloat = big.Float
@@ -10,3 +11,6 @@ type bigFloat = big.Float
 func mathIsNaN(f float64) bool   { return math.IsNaN(f) }
 func mathIsInf(f float64) bool   { return math.IsInf(f, 0) }
 func mathTrunc(f float64) float64 { return math.Trunc(f) }
+
+func strconvParseFloat(s string, bits int) (float64, error) { return strconv.ParseFloat(s, bits) }
+func itoa(n int) string                                     { return strconv.Itoa(n) }
